@@ -37,11 +37,22 @@ type countingCtx struct {
 	kind   error
 	closed chan struct{}
 	open   chan struct{}
+	cancel context.CancelCauseFunc
 }
+
+// errCustomCause is the cause used by the "cause" cancel kind (context.WithCancelCause).
+var errCustomCause = errors.New("custom cancellation cause")
 
 func newCountingCtx(parent context.Context, k int, kind error) *countingCtx {
 	c := &countingCtx{Context: parent, k: k, kind: kind, closed: make(chan struct{}), open: make(chan struct{})}
 	close(c.closed)
+	if kind == errCustomCause {
+		// a real cancel-cause context underneath: Err() is context.Canceled, Cause() the custom error
+		inner, cancel := context.WithCancelCause(parent)
+		c.Context = inner
+		c.cancel = cancel
+		c.kind = context.Canceled
+	}
 	return c
 }
 
@@ -49,6 +60,10 @@ func (c *countingCtx) Done() <-chan struct{} {
 	i := c.calls
 	c.calls++
 	if c.k >= 0 && i >= c.k {
+		if c.cancel != nil {
+			c.cancel(errCustomCause)
+			return c.Context.Done()
+		}
 		return c.closed
 	}
 	return c.open
@@ -228,12 +243,17 @@ func runExec(p *path.Path, doc any, vars map[string]any, c *execCase) (res J) {
 		kind = context.Canceled
 		if c.Kind == "deadline" {
 			kind = context.DeadlineExceeded
+		} else if c.Kind == "cause" {
+			kind = errCustomCause
 		}
 	}
 	base := types.ContextWithTZ(context.Background(), zoneFor(c.ZoneID))
 	cctx := newCountingCtx(base, k, kind)
 	var ctx context.Context = cctx
 
+	if kind == errCustomCause {
+		kind = context.Canceled
+	}
 	errRes := func(err error) J {
 		cl := classify(err, kind)
 		if cl == "NULL" {
@@ -394,10 +414,18 @@ func execStream(args []string) int {
 	noDT := fs.Bool("nodt", false, "suppress datetime methods")
 	_ = fs.Parse(args)
 
+	var grid []group
+	if isGrid(*prof) {
+		grid = gridSample(*prof, *seed, *n)
+		*n = len(grid)
+	}
 	p, ok := profiles[*prof]
-	if !ok {
+	if !ok && grid == nil {
 		fmt.Fprintln(os.Stderr, "unknown profile", *prof)
 		return 2
+	}
+	if grid != nil {
+		p = profiles["general"]
 	}
 	if *noDT {
 		p.wDatetime = 0
@@ -425,13 +453,23 @@ func execStream(args []string) int {
 	id := 0
 	today := time.Now().UTC().Unix() / 86400
 	for grp := 0; grp < *n; grp++ {
-		text := g.path()
+		var text string
+		var doc any
+		var vars map[string]any
+		if grid != nil {
+			text, doc, vars = grid[grp].text, grid[grp].doc, grid[grp].vars
+			g.strs = nil
+		} else {
+			text = g.path()
+		}
 		pp, err := parseNoPanic(text)
 		if err != nil || pp == nil {
 			parseFail++
 			continue
 		}
-		doc, vars, _ := g.document()
+		if grid == nil {
+			doc, vars = bestDocument(g, pp)
+		}
 		astW := encAST(pp.AST)
 		docW := encItem(doc)
 		varsW := encVars(vars)
@@ -463,10 +501,7 @@ func execStream(args []string) int {
 					}
 					for k := 0; k <= polls; k++ {
 						kk := k
-						kind := "canceled"
-						if (k+grp)%2 == 1 {
-							kind = "deadline"
-						}
+						kind := []string{"canceled", "deadline", "cause"}[(k+grp)%3]
 						emit(entry, silent, &kk, kind)
 					}
 				}
@@ -487,6 +522,24 @@ func execStream(args []string) int {
 		os.WriteFile(*statsF, marshal(stats), 0o644)
 	}
 	return 0
+}
+
+// bestDocument draws several candidate documents for the current path and keeps one on which the
+// evaluation goes deepest (measured by the number of context polls of an uncancelled Query), so
+// that most cases get past the first accessor. One time in four the first candidate is kept.
+func bestDocument(g *gen, pp *path.Path) (any, map[string]any) {
+	doc, vars, _ := g.document()
+	if g.pct(25) {
+		return doc, vars
+	}
+	best := countPolls(pp, doc, vars, "query", true)
+	for i := 0; i < 6; i++ {
+		d2, v2, _ := g.document()
+		if n := countPolls(pp, d2, v2, "query", true); n > best {
+			doc, vars, best = d2, v2, n
+		}
+	}
+	return doc, vars
 }
 
 func parseNoPanic(text string) (p *path.Path, err error) {
